@@ -102,28 +102,31 @@ type RunResult struct {
 }
 
 type e1 struct {
-	p            *Program
-	w            *World
-	w2           *World // optional second bucket
-	env          Env
-	docs         []map[string]Doc // per collection
-	docs2        map[string]Doc   // second bucket, default collection
-	names        map[string]bool  // xattr names ever used
-	live         []*FeedLog       // one live feed per collection
-	liveIdx      []int
-	live2        *FeedLog
-	live2Idx     int
-	maxCas       uint64                                // highest CAS seen on any document (including caller-supplied WithMeta values)
-	maxIssued    uint64                                // highest CAS handed out by the clock (regular writes)
-	clockBack    uint64                                // how far the HLC's physical clock has been set back (nanoseconds)
-	maxBucketCas uint64                                // highest CAS of a committed transaction of the (on-disk) bucket: what a restart may rely on
-	ddocs        map[int]map[string]map[string]viewDef // collection -> design doc -> view -> definition
-	casHist      map[string][]uint64                   // per coll/key: CAS values seen (for "stale")
-	ctx          OpCtx
-	res          *RunResult
-	step         int
-	feedN        int
-	logOn        bool
+	p                *Program
+	w                *World
+	w2               *World // optional second bucket
+	env              Env
+	docs             []map[string]Doc // per collection
+	docs2            map[string]Doc   // second bucket, default collection
+	names            map[string]bool  // xattr names ever used
+	live             []*FeedLog       // one live feed per collection
+	liveIdx          []int
+	live2            *FeedLog
+	live2Idx         int
+	maxCas           uint64 // highest CAS seen on any document (including caller-supplied WithMeta values)
+	maxIssued        uint64 // highest CAS handed out by the clock (regular writes)
+	clockBack        uint64 // how far the HLC's physical clock has been set back (nanoseconds)
+	maxBucketCas     uint64 // highest CAS of a committed transaction of the (on-disk) bucket: what a restart may rely on
+	sched            *Sched
+	commitBusyBefore int
+	liveByCas        map[string]ObsEvent                   // "coll/key/cas" -> the live event seen for that mutation
+	ddocs            map[int]map[string]map[string]viewDef // collection -> design doc -> view -> definition
+	casHist          map[string][]uint64                   // per coll/key: CAS values seen (for "stale")
+	ctx              OpCtx
+	res              *RunResult
+	step             int
+	feedN            int
+	logOn            bool
 }
 
 func (e *e1) logf(format string, args ...any) {
@@ -267,8 +270,10 @@ func (e *e1) run() {
 	}
 	s.Install()
 	defer Uninstall()
+	e.sched = s
+	e.liveByCas = map[string]ObsEvent{}
 
-	w, err := OpenWorld("b1", p.OnDisk, 1, p.NColl)
+	w, err := OpenWorld("b1", p.OnDisk, ifelseI(p.Prop == "C12", 2, 1), p.NColl)
 	e.w = w
 	if err != nil {
 		e.res.Trouble = "setup: " + err.Error()
@@ -381,6 +386,15 @@ func (e *e1) doOp(op *Op) *Violation {
 	ds, bucket, docs := e.target(op)
 	d := docs[op.Key]
 	e.resolveCas(op, d)
+	for _, name := range op.XEcho {
+		// hand the xattr back exactly as it is stored (what a read-modify-write caller does)
+		if v, ok := d.X[name]; ok {
+			if op.Xattrs == nil {
+				op.Xattrs = map[string]string{}
+			}
+			op.Xattrs[name] = v
+		}
+	}
 	for k := range op.Xattrs {
 		e.names[k] = true
 	}
@@ -422,6 +436,11 @@ func (e *e1) doOp(op *Op) *Violation {
 	}
 	if r.Commits > 0 && r.NewCas > e.maxBucketCas && op.Handle != 9 {
 		e.maxBucketCas = r.NewCas
+	}
+	if out.Mutated && out.Family == "touch" {
+		// a touch changes expiry and revision but (in rosmar) not the CAS: the live event recorded for
+		// that CAS no longer describes the current state
+		delete(e.liveByCas, fmt.Sprintf("%d/%s/%d", op.Coll, op.Key, d.Cas))
 	}
 	if out.Mutated {
 		n := out.Next
@@ -581,6 +600,7 @@ func (e *e1) checkFresh(op *Op, out StepOut, fresh []ObsEvent, mine bool, where 
 	if len(fresh) > 1 {
 		return e.violate([]string{"C08"}, "event.duplicate", "step %d %s: %d events delivered: %s, %s", e.step, op, len(fresh), fresh[0], fresh[1])
 	}
+	e.liveByCas[fmt.Sprintf("%d/%s/%d", op.Coll, fresh[0].Key, fresh[0].Cas)] = fresh[0]
 	if what, tags := compareEvent(fresh[0], out.Event, "C08"); what != "" {
 		return e.violate(tags, "event."+strings.SplitN(what, " ", 2)[0], "step %d %s: live event %s differs from the mutation: %s", e.step, op, fresh[0], what)
 	}
@@ -823,6 +843,20 @@ func (e *e1) doBackfill(op *Op) *Violation {
 			o.DataType &^= sgbucket.FeedDataTypeJSON
 			x.JSON = -1
 		}
+		if lv, ok := e.liveByCas[fmt.Sprintf("%d/%s/%d", op.Coll, o.Key, o.Cas)]; ok && !keysOnly {
+			// the statement's own yardstick: the backfilled event equals the live event of the same mutation
+			lx := &ExpEvent{Key: lv.Key, Deletion: lv.Opcode == sgbucket.FeedOpDeletion, HasBody: lv.HasBody, Body: lv.Body, X: lv.X, JSON: -1, Cas: lv.Cas, Exp: lv.Exp, Rev: lv.Rev}
+			if lv.DataType&sgbucket.FeedDataTypeJSON != 0 {
+				lx.JSON = 1
+			} else if lv.HasBody {
+				lx.JSON = 0
+			}
+			if what, tags := compareEvent(o, lx, "C09"); what != "" && !strings.HasPrefix(what, "expiry") {
+				return e.violate(tags, "backfill.vs-live."+strings.SplitN(what, " ", 2)[0], "step %d: the backfill event %s differs from the live event %s that the same mutation (CAS %d) produced: %s", e.step, o, lv, o.Cas, what)
+			} else if o.Exp != lv.Exp {
+				return e.violate([]string{"C09"}, "backfill.vs-live.expiry", "step %d: the backfill event of %q (CAS %d) carries expiry %d, the live event of the same mutation carried %d", e.step, o.Key, o.Cas, o.Exp, lv.Exp)
+			}
+		}
 		if what, tags := compareEvent(o, x, "C09"); what != "" {
 			return e.violate(tags, "backfill."+strings.SplitN(what, " ", 2)[0], "step %d: backfill event %s does not describe the document's current state %s: %s", e.step, o, want[i].d, what)
 		}
@@ -1041,7 +1075,13 @@ func (e *e1) doAdvance(op *Op) *Violation {
 		docs := e.docs[ci]
 		d, ok := docs[o.Key]
 		if !ok || d.Exp == 0 || o.Opcode != sgbucket.FeedOpDeletion {
-			return e.violate([]string{"C14", "C08"}, "expiry.spurious", "step %d: while time passed with no client activity the feed of collection %d received %s, but that key has no expiry in force (model: %s)", e.step, ci, o, d)
+			tags := []string{"C14", "C08"}
+			for oc, odocs := range e.docs {
+				if od, has := odocs[o.Key]; has && oc != ci && od.Exp != 0 {
+					tags = append(tags, "C11") // the same key has an expiry in force in ANOTHER collection
+				}
+			}
+			return e.violate(tags, "expiry.spurious", "step %d: while time passed with no client activity the feed of collection %d received %s, but that key has no expiry in force (model: %s)", e.step, ci, o, d)
 		}
 		if d.Exp > now {
 			return e.violate([]string{"C14"}, "expiry.early", "step %d: %q was expired at %d, before its expiry time %d", e.step, o.Key, now, d.Exp)
@@ -1154,10 +1194,14 @@ func (e *e1) doRecreateColl(op *Op) *Violation {
 			return e.violate([]string{"C11"}, "feed.isolation", "step %d: dropping %s delivered an event to the feed of collection %d", e.step, name, ci)
 		}
 	}
+	stale := e.w.Colls[0][op.Coll] // the data store object obtained before the drop
 	ds, err := b.NamedDataStore(name)
 	if err != nil {
 		return e.violate([]string{"C11"}, "recreate.error", "step %d: re-creating %s failed: %v", e.step, name, err)
 	}
+	// a write through the object of the DROPPED collection must not land anywhere else (it may fail)
+	_ = stale.Set("k1", 0, nil, []byte(`{"stale":true}`))
+	_, _ = stale.Add("kstale", 0, []byte(`{"stale":true}`))
 	e.w.Colls[0][op.Coll] = ds
 	e.docs[op.Coll] = map[string]Doc{}
 	if e.ddocs != nil {
@@ -1189,6 +1233,12 @@ func (e *e1) doRecreateColl(op *Op) *Violation {
 // armFaults plants the faults planned for the current step; returns the fired-counters before.
 func (e *e1) armFaults() [5]int64 {
 	var before [5]int64
+	for _, f := range e.p.Faults {
+		if f.AtOp == e.step && f.Kind == 5 {
+			e.sched.CommitBusy = 1 + f.Offset%2 // the transaction's first attempt(s) fail with BUSY right before COMMIT
+		}
+	}
+	e.commitBusyBefore = e.sched.CommitBusyFired
 	if !e.p.OnDisk {
 		return before
 	}
@@ -1197,6 +1247,9 @@ func (e *e1) armFaults() [5]int64 {
 	}
 	for _, f := range e.p.Faults {
 		if f.AtOp == e.step {
+			if f.Kind == 5 {
+				continue
+			}
 			if f.Kind == vfs.Busy {
 				vfs.AddFault(vfs.LockOrdinal()+int64(f.Offset), f.Kind)
 			} else {
@@ -1208,6 +1261,14 @@ func (e *e1) armFaults() [5]int64 {
 }
 
 func (e *e1) faultFired(before [5]int64) string {
+	e.sched.CommitBusy = 0
+	if n := e.sched.CommitBusyFired - e.commitBusyBefore; n > 0 {
+		if e.res.Stats.Faults == nil {
+			e.res.Stats.Faults = map[string]int{}
+		}
+		e.res.Stats.Faults["busy-before-commit(retry)"] += n
+		e.probe("fault.transaction-retried")
+	}
 	if !e.p.OnDisk {
 		return ""
 	}
@@ -1276,4 +1337,11 @@ func (e *e1) doHLCBurst(op *Op) *Violation {
 	e.logf("#%d HLCBurst(%d)", e.step, op.Dur)
 	e.probe("hlc.burst")
 	return nil
+}
+
+func ifelseI(c bool, a, b int) int {
+	if c {
+		return a
+	}
+	return b
 }
